@@ -6,6 +6,7 @@ CONSTANTS
   NotifyMode = "token"
   TempApps = {}
   TwoPhaseApps = {}
+  DrainOnlyApps = {}
   ExitMode = "recheck"
 INVARIANTS FIFO LockOK
 CONSTRAINT Mark
